@@ -285,3 +285,107 @@ def random_program(rng, tg, d):
             out[-1] += "  " + r.choice(COMMENTS)
         out.append("\n" * (1 + r.below(4)))
     return "".join(out).rstrip("\n") + ("\n" if r.chance(1, 2) else "")
+
+
+# ---- statement sequences: what PRECEDES a statement decides whether its first token is read as the
+# continuation of an earlier statement.  grammar.pest: NEWLINE = inline_comment? ~ plain_newline and infix_usage
+# admits (WHITESPACE | NEWLINE)* before an operator, so blank lines AND comment-only lines do not end an
+# expression; an `output x = e` ends in an expression too, `output x` does not.  The family enumerates
+# (earlier statement kind) x (what stands between: line break / blank lines / comment lines / end-of-line comment /
+# CRLF) x (statement by the first token of its formatted text), at the top level and inside a do-block.
+# Every statement is written so that it stands alone in the SOURCE (a leading `-` in parentheses).
+SEQ_PREAMBLE = "a = 5\nb = 2\nc = true\nf = x => x * 2\ntotal = 0\n"
+
+# (label, source, first token class of the formatted text)
+SEQ_STARTERS = [
+    ("neg-num", "(-3)", "-"), ("neg-id", "(-a)", "-"), ("neg-add", "(-a) + b", "-"), ("neg-mul", "(-a) * 2", "-"),
+    ("neg-group", "(-(a + b))", "-"), ("neg-call", "(-f(a))", "-"), ("neg-neg", "(-(-a))", "-"),
+    ("neg-cmp", "(-a) == b", "-"), ("neg-pow", "(-a) ^ 2", "-"), ("neg-via", "(-a) into f", "-"),
+    ("neg-list", "(-[a, b])", "-"), ("neg-cond", "(-a) + (if a > b then a else b)", "-"),
+    ("neg-dec", "(-2.5) / b", "-"),
+    ("neg-long", "(-a) + total_of_everything_so_far(a, b) + another_rather_long_name(b, a) + yet_another_long_name(a)", "-"),
+    ("bang", "(!c)", "!"), ("not", "(not c)", "not"),
+    ("group", "(a + b) * 2", "("), ("lambda-call", "(x => x + 1)(a)", "("),
+    ("list", "[a, b]", "["), ("record", "{k: a}", "{"), ("string", '"s"', "quote"), ("number", "3", "digit"),
+    ("ident", "a", "name"), ("call", "f(a)", "name"), ("assign-neg", "t = (-a)", "name"),
+    ("cond", "if a > b then a else b", "if"), ("do", "do {\n  return a\n}", "do"),
+]
+
+# (label, source, kind): the statement standing before; kind: expression / output declaration
+SEQ_PREVS = [
+    ("assign", "sub = 10", "E"), ("ident", "a", "E"), ("call", "f(a)", "E"), ("list", "[a, b]", "E"),
+    ("number", "7", "E"), ("string", '"s"', "E"), ("lambda", "g = x => x + 1", "E"),
+    ("cond", "if a > b then a else b", "E"), ("do", "do {\n  return a\n}", "E"), ("neg", "(-b)", "E"),
+    ("out-assign", "output t = 10", "O"), ("out-name", "output a", "O"),
+]
+
+# (label, text between the earlier statement and the statement under test)
+SEQ_SEPS = [
+    ("newline", "\n"), ("blank", "\n\n"), ("blank3", "\n\n\n\n"),
+    ("comment", "\n// note\n"), ("comment2", "\n// one\n// two\n"), ("blank+comment", "\n\n// note\n"),
+    ("comment+blank", "\n// note\n\n"), ("blank+comment+blank", "\n\n// note\n\n"),
+    ("eol", "  // eol\n"), ("eol+comment", "  // eol\n// note\n"),
+    ("indented-comment", "\n    // note\n  "), ("crlf-comment", "\r\n// note\r\n"), ("empty-comment", "\n//\n"),
+]
+
+# what stands before a statement that has NO expression before it
+SEQ_HEADS = [("first", ""), ("comment-head", "// header\n"), ("comment2-head", "// one\n// two\n\n"),
+             ("blank-head", "\n\n"), ("out-name-head", "output a\n"), ("out-name+comment-head", "output a\n// note\n"),
+             ("out-assign-head", "output t = 1\n"), ("out-assign+comment-head", "output t = 1\n// note\n"),
+             ("out-assign2-head", "output t = 1\noutput u = [t]\n\n")]
+
+# what follows the statement under test
+SEQ_TAILS = [("none", ""), ("stmt", "\nz = 1"), ("comment+neg", "\n// end\n(-b)"), ("output", "\noutput total")]
+
+
+def _indent(text, pad):
+    return "\n".join((pad + l if l.strip() else l) for l in text.split("\n"))
+
+
+def seq_program(container, before, sep, starter, tail):
+    """the source of one case.  container 'top': statements of the program; 'do': statements of a do-block
+    (no output declarations there: the caller does not pass them)"""
+    body = before + sep + starter + tail
+    if container == "top":
+        return body
+    # a do-block statement ends at a line break or `;`; comments and blank lines may stand between statements
+    return "r = do {\n" + _indent(body.replace("\r\n", "\n"), "  ") + "\n  return total\n}"
+
+
+def statement_sequences(rng, full):
+    """-> list of (source, tags) with tags = {container, prev, sep, starter, first_token, tail}.
+    full: the whole product; otherwise every pair (sep, starter), (prev, starter), (head, starter) at least once in
+    each container (the third coordinate and the tail drawn from rng)."""
+    out = []
+
+    def add(container, pl, ptxt, sl, stxt, st, tl=None):
+        lab, src, tok = st
+        tlab, ttxt = tl if tl is not None else SEQ_TAILS[rng.below(len(SEQ_TAILS))]
+        if container == "do" and "output" in ttxt:
+            tlab, ttxt = SEQ_TAILS[1]
+        pre = SEQ_PREAMBLE if container == "top" and pl not in [h for h, _ in SEQ_HEADS] else ""
+        s = seq_program(container, ptxt, stxt, src, ttxt)
+        if container == "do" and pl not in [h for h, _ in SEQ_HEADS]:
+            s = SEQ_PREAMBLE + s
+        out.append((pre + s, {"container": container, "prev": pl, "sep": sl, "starter": lab, "first_token": tok,
+                              "tail": tlab}))
+
+    for container in ("top", "do"):
+        prevs = [p for p in SEQ_PREVS if container == "top" or p[2] == "E"]
+        heads = [hd for hd in SEQ_HEADS if container == "top" or "out" not in hd[0]]
+        for st in SEQ_STARTERS:
+            if full:
+                for pl, ptxt, _ in prevs:
+                    for sl, stxt in SEQ_SEPS:
+                        for tl in SEQ_TAILS:
+                            add(container, pl, ptxt, sl, stxt, st, tl)
+            else:
+                for sl, stxt in SEQ_SEPS:
+                    pl, ptxt, _ = prevs[rng.below(len(prevs))]
+                    add(container, pl, ptxt, sl, stxt, st)
+                for pl, ptxt, _ in prevs:
+                    sl, stxt = SEQ_SEPS[rng.below(len(SEQ_SEPS))]
+                    add(container, pl, ptxt, sl, stxt, st)
+            for hl, htxt in heads:
+                add(container, hl, htxt, "-", "", st)
+    return out
